@@ -22,6 +22,14 @@ func main() {
 	hist.RunHistoriesX(r, nh, o, so, 10, 40, []hist.Auditor{hist.ModelAuditor}, func(s *hist.SUT, op hist.Op) []hist.Problem {
 		return hist.MustSucceed(op)
 	}, func(s *hist.SUT, rng *rand.Rand) []hist.Problem {
+		// now and then a peer's block that the state machine must refuse (junk transaction, or a
+		// conflict with the pool + a bad signature): a state after a refusal is a reachable state
+		if rng.Intn(12) == 0 {
+			if op, _ := s.FailPlay(rng); op.Kind != "" {
+				return hist.ModelAuditor(s, hist.Op{})
+			}
+			return nil
+		}
 		// one time in four: a hostile attempt instead of a normal step
 		if rng.Intn(4) != 0 {
 			return nil
